@@ -195,6 +195,19 @@ theorem C03_hypothesis_needed :
   · unfold RefillWithinTTL; decide
   · decide
 
+/-- `average ≤ period` (in ns) in `C03_5x_suffices` cannot be dropped: 10^10 tokens/s, burst 5·10^10 = 5 × average,
+    period 1 s.  `timePerToken` is clamped to 1 ns, the burst needs 50 s to refill, the entry is kept 10 s:
+    10^11 admitted in 11 s against a bound of 5·10^10 + 1.1·10^10 + 1. -/
+theorem C03_5x_needs_avg_le_period :
+    (⟨second, 10000000000, 50000000000⟩ : Rate).valid = true ∧ second ≤ (⟨second, 10000000000, 50000000000⟩ : Rate).period ∧
+    (⟨second, 10000000000, 50000000000⟩ : Rate).burst ≤ 5 * (⟨second, 10000000000, 50000000000⟩ : Rate).average ∧
+    ¬ RefillWithinTTL [⟨second, 10000000000, 50000000000⟩] ∧
+    windowSum (admittedOf ((Limiter.new [⟨second, 10000000000, 50000000000⟩] 4).decisionsFor "a"
+        [⟨0, "a", 50000000000, ""⟩, ⟨11 * second, "a", 50000000000, ""⟩]) [(0, 50000000000), (11 * second, 50000000000)]) 0 1
+      > 50000000000 + (11 * second - 0) / tptOf second 10000000000 + 1 := by
+  refine ⟨by decide, by decide, by decide, ?_, by decide⟩
+  unfold RefillWithinTTL; decide
+
 /-- a sub-second `maxPeriod` gives `ttl = 1`: the entry is forgotten as soon as the wall clock shows
     the next second.  10 tokens/s, burst 3: 3 at `0.999 s`, 3 more at `1.000 s`; bound 4. -/
 theorem C03_subsecond_forgets :
